@@ -187,7 +187,7 @@ def make_converter(ty: IntoConverter, handlers: ConverterHandlers = ConverterHan
     from .converters import EnumConverter, DelegateConverter, _BASIC_CONVERTERS, _BASIC_WITH_ARGS
 
     if ty is t.Any or ty is type(t.Any):
-        return AnyConverter()
+        return AnyConverter(handlers)
     if isinstance(ty, t.TypeVar):
         var_ty: IntoConverter
 
